@@ -255,8 +255,22 @@ def run_default(key):
         V(res, key, "append_only", {"len": len(a.orientations)})
     for clause, detail in H.check_snapshot(a.orientations[-1], a.fractions[-1], n, 1, 0.2):
         V(res, key, clause, detail, hist="ss_xz:0.2", N=1)
+    # the caller overwrites, in place, the initial snapshot of ONE mineral (e.g. to start from
+    # a single orientation): minerals built before or after with the same arguments are not
+    # affected (seed C01h: initial textures served from a cache keyed on (n_grains, seed))
+    res["clauses"]["initial_snapshots_independent"] = 1
+    keep = np.array(b.orientations[0])
+    try:
+        a.orientations[0][...] = -a.orientations[0]  # (a different overwrite on every replay of the case)
+        a.fractions[0][...] = 0.0
+    except Exception:
+        pass
+    c_ = pd.Mineral(seed=s)
+    res["n"] += 1
+    if not (np.array_equal(b.orientations[0], keep) and np.array_equal(c_.orientations[0], keep) and abs(float(np.sum(c_.fractions[0])) - 1.0) < 1e-12):
+        V(res, key, "initial_snapshots_independent", {"earlier_mineral_changed": not np.array_equal(b.orientations[0], keep), "later_mineral_changed": not np.array_equal(c_.orientations[0], keep)})
     res["nontrivial"].append(digest("default", s))
-    res["obs"] = digest(a.orientations[0], a.orientations[-1], a.fractions[-1], F)
+    res["obs"] = digest(keep, a.orientations[-1], a.fractions[-1], F)
     res["outcomes"].append(res["obs"])
     res["sample"] = {"case": key, "n_grains": n}
     return res
